@@ -7,10 +7,21 @@
 //! `c02.u.rem_wide_vartime L lo hi d`, `c02.u.rem2k_vartime L n k`
 //! `c02.b.<name> NL DL n d`           boxed, `c02.b.div_rem_limb NL n d`
 //!
+//! `c02.hook.<name> …`               crate-internal functions through `crypto_bigint::verif_hooks`:
+//!     `short_div dividend dividend_bits divisor divisor_bits` (decimal bit counts, hex u32 values),
+//!     `recip_fields d` (`Reciprocal::new(d).verif_fields()`, cross-checked with the Debug output and `shift()`),
+//!     `reciprocal d` (raw `reciprocal(d)`, d normalised), `div2by1 u1 u0 d`, `div3by2 u2 u1 u0 v1 v0`
+//!     (with `Reciprocal::new(d)` / `Reciprocal::new(v1)`)
+//! `c02.u.recip_select L n d c`        `Reciprocal::default()` / `Default::default()` / `ConditionallySelectable::
+//!     conditional_select` between `Reciprocal::new(d)` and the default (c: bit 0 = choice, bit 1 = operand order),
+//!     then `div_rem_limb_with_reciprocal` / `rem_limb_with_reciprocal` (inherent + trait) with the selected one
+//! `c02.b.recip_select NL n d c`       the same on `BoxedUint`
+//!
 //! Ops ending in `_forms` / printing a trailing `ok` run every forwarding form of the API
 //! (operators by value / reference / assigning, `Wrapping`, checked, trait methods) and print `ok`
 //! only if all of them return the primary result.
 use crate::util::*;
+use crypto_bigint::verif_hooks as hooks;
 use crypto_bigint::{
     BoxedUint, CheckedDiv, DivRemLimb, DivVartime, Limb, NonZero, Reciprocal, RemLimb, RemMixed, Uint, Wrapping,
 };
@@ -34,8 +45,87 @@ fn recip_fields(rc: &Reciprocal) -> Option<(u64, u32, u64)> {
     Some((num("divisor_normalized: ")?, num("shift: ")? as u32, num(" reciprocal: ")?))
 }
 
+/// `c`: bit 0 = the `Choice`, bit 1 = operand order (`0`: `select(new(d), default, c)`, `1`: `select(default, new(d), c)`).
+/// Returns the selected reciprocal; `Err` = a form of `default` / the selection disagrees with its contract.
+fn recip_select(d: Limb, c: usize) -> Option<Result<Reciprocal, String>> {
+    use subtle::{Choice, ConditionallySelectable};
+    let nz: NonZero<Limb> = Option::from(NonZero::new(d))?;
+    let fresh = Reciprocal::new(nz);
+    let dflt = Reciprocal::default();
+    let dflt_trait: Reciprocal = Default::default();
+    if dflt != dflt_trait || dflt.verif_fields() != dflt_trait.verif_fields() {
+        return Some(Err("default-forms-differ".into()));
+    }
+    let choice = Choice::from((c & 1) as u8);
+    let (a, b) = if c & 2 == 0 { (fresh, dflt) } else { (dflt, fresh) };
+    let sel = Reciprocal::conditional_select(&a, &b, choice);
+    // the other entry points of the trait are the provided methods on top of `conditional_select`
+    let mut asg = a;
+    asg.conditional_assign(&b, choice);
+    if asg != sel {
+        return Some(Err("select-forms-differ".into()));
+    }
+    Some(Ok(sel))
+}
+
+fn fields_tok(rc: &Reciprocal) -> String {
+    let (dn, sh, rv) = rc.verif_fields();
+    format!("{dn:x} {sh} {rv:x}")
+}
+
+fn hook_op(name: &str, a: &[&str]) -> Option<String> {
+    Some(match (name, a) {
+        ("short_div", [x, xb, y, yb]) => {
+            let (x, y) = (arg!(word(x)), arg!(word(y)));
+            if x > u32::MAX as u64 || y > u32::MAX as u64 {
+                return Some(BAD.into());
+            }
+            format!("{:x}", hooks::short_div(x as u32, arg!(dec32(xb)), y as u32, arg!(dec32(yb))))
+        }
+        ("recip_fields", [d]) => {
+            let d = arg!(limb(d));
+            let nz: NonZero<Limb> = match Option::from(NonZero::new(d)) { Some(v) => v, None => return Some(NONE.into()) };
+            let rc = Reciprocal::new(nz);
+            let (dn, sh, rv) = rc.verif_fields();
+            if Some((dn, sh, rv)) != recip_fields(&rc) || sh != rc.shift() || rv != hooks::reciprocal(dn) {
+                return Some("forms-differ".into());
+            }
+            fields_tok(&rc)
+        }
+        ("reciprocal", [d]) => format!("{:x}", hooks::reciprocal(arg!(word(d)))),
+        ("div2by1", [u1, u0, d]) => {
+            let nz: NonZero<Limb> = match Option::from(NonZero::new(arg!(limb(d)))) { Some(v) => v, None => return Some(NONE.into()) };
+            let (q, r) = hooks::div2by1(arg!(word(u1)), arg!(word(u0)), &Reciprocal::new(nz));
+            format!("{q:x} {r:x}")
+        }
+        ("div3by2", [u2, u1, u0, v1, v0]) => {
+            let nz: NonZero<Limb> = match Option::from(NonZero::new(arg!(limb(v1)))) { Some(v) => v, None => return Some(NONE.into()) };
+            format!("{:x}", hooks::div3by2(arg!(word(u2)), arg!(word(u1)), arg!(word(u0)), &Reciprocal::new(nz), arg!(word(v0))))
+        }
+        _ => return None,
+    })
+}
+
 fn fixed<const N: usize>(op: &str, a: &[&str]) -> Option<String> {
     Some(match (op, a) {
+        ("c02.u.recip_select", [n, d, c]) => {
+            let (x, d, c) = (arg!(uint::<N>(n)), arg!(limb(d)), arg!(dec(c)));
+            let rc = match recip_select(d, c) {
+                None => return Some(NONE.into()),
+                Some(Err(e)) => return Some(e),
+                Some(Ok(rc)) => rc,
+            };
+            let (q, r) = x.div_rem_limb_with_reciprocal(&rc);
+            let rr = x.rem_limb_with_reciprocal(&rc);
+            let f = vec![
+                DivRemLimb::div_rem_limb_with_reciprocal(&x, &rc),
+                hooks::div_rem_limb_with_reciprocal(&x, &rc),
+                (q, RemLimb::rem_limb_with_reciprocal(&x, &rc)),
+                (q, hooks::rem_limb_with_reciprocal(&x, &rc)),
+                (q, rr),
+            ];
+            format!("{} {} {} {}", fields_tok(&rc), uhex(&q), lhex(r), forms_tok(&(q, r), &f))
+        }
         ("c02.u.div_rem_limb", [n, d]) => {
             let (x, d) = (arg!(uint::<N>(n)), arg!(limb(d)));
             let nz: NonZero<Limb> = match Option::from(NonZero::new(d)) { Some(v) => v, None => return Some(NONE.into()) };
@@ -330,8 +420,31 @@ fn boxed_limb(a: &[&str]) -> Option<String> {
     Some(format!("{} {} {}", key(&q, r), lhex(rr), forms_tok(&key(&q, r), &f)))
 }
 
+fn boxed_recip_select(a: &[&str]) -> Option<String> {
+    let nl = arg!(dec(a[0]));
+    let (x, d, c) = (arg!(boxed(a[1], nl)), arg!(limb(a[2])), arg!(dec(a[3])));
+    let rc = match recip_select(d, c) {
+        None => return Some(NONE.into()),
+        Some(Err(e)) => return Some(e),
+        Some(Ok(rc)) => rc,
+    };
+    let (q, r) = x.div_rem_limb_with_reciprocal(&rc);
+    let rr = x.rem_limb_with_reciprocal(&rc);
+    let key = |q: &BoxedUint, r: Limb| format!("{} {}", bhexlen(q), lhex(r));
+    let f = vec![
+        { let (q2, r2) = DivRemLimb::div_rem_limb_with_reciprocal(&x, &rc); key(&q2, r2) },
+        key(&q, RemLimb::rem_limb_with_reciprocal(&x, &rc)),
+        key(&q, rr),
+    ];
+    Some(format!("{} {} {}", fields_tok(&rc), key(&q, r), forms_tok(&key(&q, r), &f)))
+}
+
 pub fn dispatch(op: &str, a: &[&str]) -> Option<String> {
+    if let Some(name) = op.strip_prefix("c02.hook.") {
+        return hook_op(name, a);
+    }
     match (op, a) {
+        ("c02.b.recip_select", [_, _, _, _]) => boxed_recip_select(a),
         ("c02.recip", [d]) => {
             let d = arg!(limb(d));
             let nz: NonZero<Limb> = match Option::from(NonZero::new(d)) { Some(v) => v, None => return Some(NONE.into()) };
